@@ -242,28 +242,46 @@ def run(ctx):
               'a nondeterminism source is reachable from seeded code: %s' % hits[:3])
     # from_entropy only in the builder, under seed == None
     fams, err, bb = build_families(f)
-    ent = cg.callers_of(lambda n: any(x in n for x in ('from_entropy', 'thread_rng', 'OsRng', 'rand::random')))
+    ent_names = ('from_entropy', 'thread_rng', 'OsRng', 'rand::random')
+    ent = cg.callers_of(lambda n: any(x in n for x in ent_names))
+    # judged in the builder's nest form: a closure handed to unwrap_or_else / a helper is spliced into the builder
+    nbb = f.nest_form(bb, yields=False) if bb is not None else None
+    spliced = set(getattr(nbb, 'inlined', [])) if nbb is not None else set()
+    sites = []
+    outside = []
     for k, s in ent:
         b = f.bodies[k]
-        okb = bb is not None and b is bb
-        guard_ok = False
-        if okb:
-            t = Tracer(b)
-            from ..cfg import CFG
-            cfg = CFG(b)
+        if bb is not None and (b is bb or b.path == bb.path or b.path in spliced):
+            continue
+        outside.append((b, s['bb']))
+    if nbb is not None:
+        sites = [(bi, tt) for bi, tt in nbb.calls() if any(x in (callee_name(tt) or '') for x in ent_names)]
+    for b, sbi in outside:
+        rep.fail('R5', 'entropy-only-when-unseeded:%s' % b.path, where(b, sbi),
+                 'an entropy-seeded generator is created outside the builder')
+    if nbb is not None:
+        from ..cfg import CFG
+        t = Tracer(nbb)
+        cfg = CFG(nbb)
+        for sbi, _tt in sites:
+            guard_ok = False
             for bi in sorted(cfg.reach):
-                tt = b.blocks[bi]['term']
+                tt = nbb.blocks[bi]['term']
                 if tt['t'] == 'switch':
                     o = t.origin(tt['discr'])
-                    if o['o'] == 'rvalue' and o['rv']['r'] == 'discr' and field_path(o['rv']['place']['p']) == ['seed']:
+                    if o['o'] == 'rvalue' and o['rv']['r'] == 'discr':
+                        po = t.origin(dict(o['rv']['place'], k='copy'))
+                        if not (field_path(o['rv']['place']['p']) == ['seed'] or
+                                (po['o'] == 'arg' and po['l'] == 1 and field_path(po['p']) == ['seed'])):
+                            continue
                         none_t = [x[1] for x in tt['arms'] if x[0] == '0'] or [tt['otherwise']]
                         some_t = [x[1] for x in tt['arms'] if x[0] == '1'] or [tt['otherwise']]
                         r_some = cfg.reachable_from(some_t, avoid=set(none_t))
                         r_none = cfg.reachable_from(none_t, avoid=set(some_t))
-                        guard_ok = s['bb'] in r_none and s['bb'] not in (r_some - r_none) and cfg.dominates(bi, s['bb'])
-        rep.check(okb and guard_ok, 'R5', 'entropy-only-when-unseeded:%s' % b.path, where(b, s['bb']),
-                  'from_entropy is control dependent on seed == None in the builder',
-                  'an entropy-seeded generator is created outside the "no seed given" branch of the builder')
+                        guard_ok = guard_ok or (sbi in r_none and sbi not in (r_some - r_none) and cfg.dominates(bi, sbi))
+            rep.check(guard_ok, 'R5', 'entropy-only-when-unseeded:%s' % bb.path, where(nbb, sbi),
+                      'from_entropy is control dependent on seed == None in the builder',
+                      'an entropy-seeded generator is created outside the "no seed given" branch of the builder')
     rep.floor('R5', 'entropy sources located', len(ent), 1)
     if fams:
         seeded = [x for x in fams if x['family'].get('seed') == 'Some']
@@ -278,85 +296,83 @@ def _closures(ctx):
     if not rep.check(len(pfs) == 1, 'R4', 'anchor:pipeline-function', 'src/main.rs', 'found',
                      'expected one pipeline function', 'anchor-lost'):
         return
-    b = pfs[0]
-    rep.saw(b)
-    t = Tracer(b)
+    from ..nest import Nest
+    rep.saw(pfs[0])
+    n = Nest(f, pfs[0], yields=False)
+    b, t, cfg = n.b, n.tr, n.cfg
+    # nest form (pk/loopform.py): the parallel reduction is read as `for index in 0..count { candidate(stages(index)) }`, the
+    # map closures and any helper unknown to the reference tree are spliced into the loop body
+    cands = n.calls(lambda tt: tt['func'].get('fn') == 'pk::candidate')
+    loops = n.loops_around(cands[0][0]) if len(cands) == 1 else []
+    if not rep.check(len(cands) == 1 and len(loops) == 1, 'R4', 'anchor:replica-loop', where(b), 'one replica loop',
+                     'the parallel pipeline is not one reduction over one index range (%d reduction input(s), %d loop(s))'
+                     % (len(cands), len(loops)), 'undecidable-shape'):
+        return
+    lp = loops[0]
+    body = lp['loop']['body']
     state_params = [i for i in b.args() if b.local_ty(i).startswith('impl ')]
-    clos = []
-    for bi, tt in b.calls():
-        if call_matches(tt, 'ParallelIterator::map') and len(tt['args']) > 1:
-            co = t.origin(tt['args'][1])
-            if co['o'] == 'rvalue' and co['rv'].get('agg') == 'closure':
-                clos.append((bi, co['rv']))
-    rep.floor('R4', 'parallel closures in the pipeline function', len(clos), 3, where(b))
-    for ci, (bi, rv) in enumerate(clos):
-        cb = f.body(rv['closure']) or f.bodies.get('bin::' + rv['closure'])
-        if not rep.check(cb is not None, 'R4', 'closure-body:#%d' % ci, where(b, bi), 'found', 'closure body missing', 'anchor-lost'):
+    stages = [(bi, tt) for bi, tt in b.calls() if bi in body and bi in cfg.reach and call_matches(tt, 'optimise_state')]
+    _all = list(stages)
+    stages = sorted(_all, key=lambda x: sum(1 for y in _all if cfg.dominates(y[0], x[0])))
+    rep.floor('R4', 'optimisation stages in the replica pipeline', len(stages), 3, where(b))
+    # the shared state is only ever cloned
+    bad = []
+    for bbi, tt in b.calls():
+        if bbi not in cfg.reach:
             continue
-        rep.saw(cb)
-        # which captures are the shared state?
-        caps = [t.origin(x) for x in rv['ops']]
-        state_caps = [i for i, c in enumerate(caps) if c.get('l') in state_params]
-        tc = Tracer(cb)
-        bad = []
-        for bbi, si, pl, w in places_in_body(cb):
-            if pl['l'] != 1:
-                continue
-            fp = [e for e in pl['p'] if isinstance(e, dict) and 'f' in e]
-            if not fp or fp[0]['f'] not in state_caps:
-                continue
-            # this place reads the captured shared state reference: find how the loaded value is used
-            if w:
-                bad.append('written')
-        # every call that receives (a copy of) the captured state ref must be Clone::clone
-        for bbi, tt in cb.calls():
-            for ai, a in enumerate(tt['args']):
-                o = tc.origin(a)
-                if o['o'] == 'arg' and o['l'] == 1:
-                    fp = [e for e in o['p'] if isinstance(e, dict) and 'f' in e]
-                    if fp and fp[0]['f'] in state_caps:
-                        if not (call_matches(tt, 'Clone>::clone', 'Clone::clone') and ai == 0):
-                            bad.append('passed to %s' % callee_name(tt))
-        rep.check(not bad, 'R4', 'shared-state-only-cloned:#%d' % ci, where(cb),
-                  'captured shared state used only as receiver of Clone::clone' if state_caps else 'no shared state captured',
-                  'a replica closure uses the shared (captured) state other than by cloning it: %s' % bad[:3])
-        # the state handed to optimise_state is owned: the fresh clone or the moved-in previous result
-        opt = [(bbi, tt) for bbi, tt in cb.calls() if call_matches(tt, 'optimise_state')]
-        if rep.check(len(opt) == 1, 'R4', 'one-optimise_state-per-stage:#%d' % ci, where(cb), 'one call',
-                     'expected one optimise_state call per stage, found %d' % len(opt)):
-            so = tc.origin(opt[0][1]['args'][1])
-            owned = (so['o'] == 'call' and call_matches(so['term'], 'Clone>::clone', 'Clone::clone')) or \
-                    (so['o'] == 'arg' and so['l'] == 2)
-            rep.check(owned, 'R4', 'optimised-state-is-owned:#%d' % ci, where(cb, opt[0][0]),
-                      'state argument = fresh clone or the moved-in result of the previous stage',
-                      'a stage optimises a state it does not own exclusively')
-            # R6: build() <- ... <- seed(index) <- ... <- clone(optimiser)
-            bo = tc.origin(opt[0][1]['args'][0])
-            chain = []
-            seed_arg = None
-            cur = bo
-            for _ in range(20):
-                if cur['o'] != 'call':
-                    break
-                nm = callee_name(cur['term']) or ''
-                chain.append(nm.rsplit('::', 1)[-1])
-                if nm.endswith('BuildOptimiser::seed'):
-                    seed_arg = tc.origin(cur['term']['args'][1])
-                if call_matches(cur['term'], 'Clone>::clone', 'Clone::clone'):
-                    break
-                cur = tc.origin(cur['term']['args'][0])
-            idx_ok = False
-            if seed_arg is not None:
-                # the replica index: the closure's argument itself (u64) or field .0 of the (index, state) tuple
-                if seed_arg['o'] == 'arg' and seed_arg['l'] == 2:
-                    fp = field_path(seed_arg['p'])
-                    idx_ok = fp in ([], ['0'])
-            rep.check('build' in chain and 'seed' in chain and chain[-1] == 'clone' and idx_ok, 'R6',
-                      'seeded-with-replica-index:#%d' % ci, where(cb, opt[0][0]),
-                      'optimiser.clone()%s' % ''.join('.%s(..)' % c for c in reversed(chain[:-1])),
-                      'the optimiser of this stage is not built from a builder seeded with the replica index '
-                      '(chain %s, seed from %s)' % (list(reversed(chain)), seed_arg and (seed_arg['o'], field_path(seed_arg.get('p', [])))))
-            rep.sample('closure #%d: %s; state %s' % (ci, ' <- '.join(chain), 'fresh clone' if so['o'] == 'call' else 'moved-in'))
+        for ai, a in enumerate(tt['args']):
+            o = t.origin(a)
+            if o['o'] == 'arg' and o['l'] in state_params and bbi in body:
+                if not (call_matches(tt, 'Clone>::clone', 'Clone::clone') and ai == 0):
+                    bad.append('passed to %s' % callee_name(tt))
+    for bbi, si, pl, w in places_in_body(b):
+        if w and pl['l'] in state_params and bbi in body:
+            bad.append('written')
+    rep.check(not bad, 'R4', 'shared-state-only-cloned', where(b, lp['header']),
+              'inside the replica loop the shared state is used only as receiver of Clone::clone',
+              'a replica uses the shared state other than by cloning it: %s' % bad[:3])
+    prev = None
+    for ci, (sbi, tt) in enumerate(stages, 1):
+        so = t.origin(tt['args'][1])
+        fresh = so['o'] == 'call' and call_matches(so['term'], 'Clone>::clone', 'Clone::clone') and \
+            t.origin(so['term']['args'][0]).get('l') in state_params
+        chained = prev is not None and so['o'] == 'call' and so.get('bb') == prev and not field_path(so['p'])[1:]
+        owned = fresh if ci == 1 else chained
+        rep.check(owned, 'R4', 'optimised-state-is-owned:#%d' % ci, where(b, sbi),
+                  'state argument = %s' % ('fresh clone of the shared state' if ci == 1 else 'the result of stage #%d' % (ci - 1)),
+                  'stage #%d optimises a state that is not %s' % (ci, 'a fresh clone of the shared state' if ci == 1 else
+                                                                  'the result of the previous stage'))
+        prev = sbi
+        # R6: build() <- ... <- seed(index) <- ... <- clone(optimiser)
+        bo = t.origin(tt['args'][0])
+        chain = []
+        seed_arg = None
+        cur = bo
+        for _ in range(20):
+            if cur['o'] != 'call':
+                break
+            nm = callee_name(cur['term']) or ''
+            chain.append(nm.rsplit('::', 1)[-1])
+            if nm.endswith('BuildOptimiser::seed'):
+                seed_arg = cur['term']['args'][1]
+            if call_matches(cur['term'], 'Clone>::clone', 'Clone::clone'):
+                break
+            cur = t.origin(cur['term']['args'][0])
+        idx_ok = False
+        if seed_arg is not None:
+            d, fp = n.item(seed_arg)
+            idx_ok = d is lp and not fp
+        rep.check('build' in chain and 'seed' in chain and chain[-1] == 'clone' and idx_ok, 'R6',
+                  'seeded-with-replica-index:#%d' % ci, where(b, sbi),
+                  'optimiser.clone()%s' % ''.join('.%s(..)' % c for c in reversed(chain[:-1])),
+                  'the optimiser of this stage is not built from a builder seeded with the replica index (chain %s)'
+                  % (list(reversed(chain)),))
+        rep.sample('stage #%d: %s; state %s' % (ci, ' <- '.join(chain), 'fresh clone' if ci == 1 else 'previous stage'))
+    if stages:
+        co = t.origin(cands[0][1]['args'][0])
+        rep.check(co['o'] == 'call' and co.get('bb') == stages[-1][0], 'R4', 'candidate-is-the-last-stage', where(b, cands[0][0]),
+                  'the value handed to the reduction is the result of the last stage',
+                  'the value handed to the reduction is not the result of the last optimisation stage')
     # setters return the same builder and seed() stores Some(arg)
     sb = f.one(self_adt='optimisation::BuildOptimiser', name='seed')
     if rep.check(sb is not None, 'R6', 'anchor:BuildOptimiser::seed', 'optimisation::BuildOptimiser', 'found', 'seed() not found', 'anchor-lost'):
